@@ -10,12 +10,14 @@ package c19
 
 import (
 	"bytes"
+	crand "crypto/rand"
 	"errors"
 	"fmt"
 	"io"
 	"os"
 	"sort"
 	"strings"
+	"sync"
 	"sync/atomic"
 	"time"
 
@@ -67,7 +69,34 @@ func noise(n int, seed uint32) []byte {
 	return b
 }
 
+// detRand is a deterministic replacement for crypto/rand.Reader while the
+// documents are built, so that encrypted documents (random IVs and salts) are
+// the same in every run and a replay sees the same bytes.
+type detRand struct{ x uint64 }
+
+func (d *detRand) Read(p []byte) (int, error) {
+	for i := range p {
+		d.x = d.x*6364136223846793005 + 1442695040888963407
+		p[i] = byte(d.x >> 56)
+	}
+	return len(p), nil
+}
+
+var buildMu sync.Mutex
+
 func buildDoc(spec docSpec) (*document, error) {
+	buildMu.Lock()
+	defer buildMu.Unlock()
+	seed := uint64(0x9e3779b97f4a7c15)
+	if v := os.Getenv("VERIF_C19_DOCSEED"); v != "" {
+		fmt.Sscan(v, &seed)
+	}
+	for _, c := range spec.Name {
+		seed = seed*131 + uint64(c)
+	}
+	old := crand.Reader
+	crand.Reader = &detRand{x: seed}
+	defer func() { crand.Reader = old }()
 	var buf bytes.Buffer
 	opt := &pdf.WriterOptions{HumanReadable: spec.Human, UserPassword: spec.User, UserPermissions: pdf.PermAll,
 		ID: [][]byte{[]byte("0123456789abcdef"), []byte("0123456789abcdef")}}
@@ -234,7 +263,55 @@ func showObj(o pdf.Object) string {
 	return hx.Show(o)
 }
 
-func walk(d *document, r *pdf.Reader, chunk int, rec func(string, string, error)) {
+// pageView is what the caching Decode of the walk produces for the page object.
+type pageView struct {
+	parentCount pdf.Integer
+	contentLen  int
+	note        string
+}
+
+func decodePage(c pdf.Cursor, obj pdf.Object, direct bool) (*pageView, error) {
+	d, err := c.Dict(obj)
+	if err != nil {
+		return nil, err
+	}
+	// nested reads inside the decode function
+	parent, err := c.Dict(d["Parent"])
+	if err != nil {
+		return nil, err
+	}
+	n, err := c.Integer(parent["Count"])
+	if err != nil {
+		return nil, err
+	}
+	stm, err := c.Stream(d["Contents"])
+	if err != nil {
+		return nil, err
+	}
+	pv := &pageView{parentCount: n}
+	if stm != nil {
+		note, _ := c.String(stm.Dict["Note"])
+		pv.note = string(note)
+		data, err := c.ReadAll(d["Contents"], 1<<20)
+		if err != nil {
+			return nil, err
+		}
+		pv.contentLen = len(data)
+	}
+	return pv, nil
+}
+
+func walk(d *document, r *pdf.Reader, chunk int, rec0 func(string, string, error), x *pdf.Extractor, prefix string) {
+	rec := func(call, val string, err error) { rec0(prefix+call, val, err) }
+	// a caching decode through the Extractor (shared by the first pass and the retry)
+	pv, err := pdf.Decode(pdf.CursorAt(x, nil), d.refs[1], decodePage)
+	if err != nil {
+		rec("Decode(page)", "", err)
+	} else if pv == nil {
+		rec("Decode(page)", "<nil>", nil)
+	} else {
+		rec("Decode(page)", fmt.Sprintf("count=%d contents=%d note=%q", pv.parentCount, pv.contentLen, pv.note), nil)
+	}
 	m := r.GetMeta()
 	info := "<nil>"
 	if m.Info != nil {
@@ -300,7 +377,11 @@ func readerScenario(mode pdf.ReaderErrorHandling, chunk int) scenario {
 				return
 			}
 			rec("NewReader", fmt.Sprintf("errors=%d", len(r.Errors)), nil)
-			walk(d, r, chunk, rec)
+			x := pdf.NewExtractor(r)
+			walk(d, r, chunk, rec, x, "")
+			// the same calls again on the same Reader and Extractor: after a
+			// transient fault they must give the fault-free answers
+			walk(d, r, chunk, rec, x, "retry:")
 		},
 	}
 }
@@ -327,7 +408,9 @@ func scanScenario() scenario {
 				return
 			}
 			rec("MakeReader", "ok", nil)
-			walk(d, r, 0, rec)
+			x := pdf.NewExtractor(r)
+			walk(d, r, 0, rec, x, "")
+			walk(d, r, 0, rec, x, "retry:")
 		},
 	}
 }
@@ -643,6 +726,19 @@ func Run(tier string) int {
 					}
 					r.DistinctS(fmt.Sprintf("r|%s|%s|%d|%d|%s", j.d.spec.Name, j.sc.name, k, mode, sn.name))
 					if f := judgeRead(j.b, got, sentinel, j.sc.name); f != nil {
+						// believe a failure only if the same run fails again, twice
+						confirmed := true
+						for rep := 0; rep < 2 && confirmed; rep++ {
+							s2 := sn.mk()
+							g2, _ := runRead(j.d, j.sc, k, mode, s2)
+							if f2 := judgeRead(j.b, g2, s2, j.sc.name); f2 == nil || f2.fp != f.fp {
+								confirmed = false
+							}
+						}
+						if !confirmed {
+							r.Flaky(fmt.Sprintf("read run failed once and not again: %s %s k=%d %s: %s", j.d.spec.Name, j.sc.name, k, modeNames[mode], f.what))
+							continue
+						}
 						fp := "read:" + f.fp
 						r.Outcome("fail:" + fp)
 						r.Violation(fp, fmt.Sprintf("%s, %s, ReadAt call %d of %d, %s: %s", j.d.spec.Name, j.sc.name, k, j.n, modeNames[mode], f.what), cs)
